@@ -38,10 +38,13 @@ CONFIGS = {
     "testlib_3.0.0": ("testlib_3.0.0", "version", ""),
     "xx:testlib_3.0.0": ("testlib_3.0.0", "prefixed", "xx:"),
     "sc:score_2.0.0": ("score_2.0.0", "prefixed", "sc:"),
+    "lb:testlib_2.0.0,score_1.1.0/testlib": ("testlib_2.0.0", "spec:lb:testlib_2.0.0,score_1.1.0", "lb:"),
+    "lb:testlib_2.0.0,score_1.1.0/score": ("score_1.1.0", "spec:lb:testlib_2.0.0,score_1.1.0", "lb:"),
+    "score_1.1.0,testlib_2.0.0/testlib": ("testlib_2.0.0", "spec:score_1.1.0,testlib_2.0.0", ""),
     "group(8.3.0,sc:score_2.0.0)/sc": ("score_2.0.0", "group", "sc:"),
     "group(8.3.0,sc:score_2.0.0)/std": ("8.3.0", "group", ""),
 }
-QUICK_CONFIGS = ["8.3.0", "xx:testlib_3.0.0", "group(8.3.0,sc:score_2.0.0)/sc"]
+QUICK_CONFIGS = ["8.3.0", "xx:testlib_3.0.0", "group(8.3.0,sc:score_2.0.0)/sc", "lb:testlib_2.0.0,score_1.1.0/testlib"]
 
 _loaded = {}
 
@@ -54,6 +57,8 @@ def get_config(name):
             sch = hedenv.schema(ver)
         elif kind == "prefixed":
             sch = hedenv.schema(ns + ver)
+        elif kind.startswith("spec:"):
+            sch = hedenv.schema(kind[5:])
         else:
             sch = hedenv.schema(("8.3.0", "sc:score_2.0.0"))
         _loaded[name] = (m, sch, ns)
@@ -98,6 +103,14 @@ def check_spelling(cfg, node_long, spelling, suffix, out, heavy=False):
         bad = [n for n, g, e in zip(names, got, exp) if g != e]
         out.bad("forms-differ:" + ",".join(bad), f"{cfg}: {text!r}: got {got} expected {exp}")
         return
+    if suffix and suffix.swapcase() != suffix:
+        sw = suffix.swapcase()
+        tag_sw = HedTag(ns + spelling + sw, sch)
+        got_sw = (tag_sw.long_tag, tag_sw.short_tag, tag_sw.extension)
+        exp_sw = (ns + node.long + sw, ns + node.short + sw, sw[1:])
+        if got_sw != exp_sw:
+            out.bad("suffix-case-not-verbatim-on-second-lookup", f"{cfg}: after {text!r}, {ns + spelling + sw!r} gives "
+                                                                 f"{got_sw} expected {exp_sw}")
     # conversion laws: long(short(t)) = long(t); short(long(t)) = short(t); idempotence; same node
     t_long = HedTag(tag.long_tag, sch)
     t_short = HedTag(tag.short_tag, sch)
@@ -159,7 +172,7 @@ def make_enum(configs):
     return enum
 
 
-VALUE_CHARS = "abcXYZ019 -_.:#$%^&*+=<>?!'\"éßİ日"
+VALUE_CHARS = "abcXYZ019 -_.:$%^&*+=<>?!'\"éßİ日"     # '#' only as the whole value (the placeholder itself)
 value_text = st.text(alphabet=VALUE_CHARS, min_size=1, max_size=12).map(lambda s: s.strip(" ")).filter(bool)
 ext_term = st.text(alphabet="abcdefXYZ019-_", min_size=2, max_size=10).map(lambda s: "Q" + s + "q7")
 
